@@ -427,7 +427,7 @@ func (d *DefaultServerDispatcher) Start() {
 	d.timerC = make(chan string, 10)
 	d.stoppedC = make(chan struct{}, 1)
 	d.running = true
-	go d.messagePump()
+	go d.messagePump(d.stoppedC, d.timerC)
 }
 
 func (d *DefaultServerDispatcher) IsRunning() bool {
@@ -508,7 +508,9 @@ func (d *DefaultServerDispatcher) SendRequest(clientID string, req RequestBundle
 
 // requestPump processes new outgoing requests for each client and makes sure they are processed sequentially.
 // This method is executed by a dedicated coroutine as soon as the server is started and runs indefinitely.
-func (d *DefaultServerDispatcher) messagePump() {
+//
+// stoppedC and timerC are the channels of this session: Start replaces the fields for the next one.
+func (d *DefaultServerDispatcher) messagePump(stoppedC chan struct{}, timerC chan string) {
 	var clientID string
 	var ok bool
 	var rdy bool
@@ -525,7 +527,7 @@ func (d *DefaultServerDispatcher) messagePump() {
 	// Dispatcher Loop
 	for {
 		select {
-		case <-d.stoppedC:
+		case <-stoppedC:
 			// server was stopped
 			d.queueMap.Init()
 			log.Info("stopped processing requests")
@@ -552,7 +554,7 @@ func (d *DefaultServerDispatcher) messagePump() {
 				// If there is no active context, the client is ready to transmit
 				rdy = !clientCtx.isActive()
 			}
-		case clientID, ok = <-d.timerC:
+		case clientID, ok = <-timerC:
 			// Timeout elapsed
 			if !ok {
 				continue
@@ -608,7 +610,7 @@ func (d *DefaultServerDispatcher) messagePump() {
 			clientCtx = d.dispatchNextRequest(clientID)
 			clientContextMap[clientID] = clientCtx
 			if clientCtx.isActive() {
-				go d.waitForTimeout(clientID, clientCtx)
+				go d.waitForTimeout(clientID, clientCtx, stoppedC)
 			}
 			// Update ready state
 			rdy = false
@@ -649,7 +651,7 @@ func (d *DefaultServerDispatcher) dispatchNextRequest(clientID string) (clientCt
 	return
 }
 
-func (d *DefaultServerDispatcher) waitForTimeout(clientID string, clientCtx clientTimeoutContext) {
+func (d *DefaultServerDispatcher) waitForTimeout(clientID string, clientCtx clientTimeoutContext, stoppedC chan struct{}) {
 	defer clientCtx.cancel()
 	log.Debugf("started timeout timer for %s", clientID)
 	select {
@@ -665,7 +667,7 @@ func (d *DefaultServerDispatcher) waitForTimeout(clientID string, clientCtx clie
 		} else {
 			log.Debugf("timeout canceled for %s", clientID)
 		}
-	case <-d.stoppedC:
+	case <-stoppedC:
 		// server was stopped, every pending timeout gets canceled
 	}
 }
